@@ -34,7 +34,7 @@ UNITS = {'': 1, 'b': 1, 'k': 1024, 'kb': 1000, 'kib': 1024, 'm': 1024 ** 2, 'mb'
 def parse_size(lit):
     """number x multiplier, unit in any letter case, fractional number allowed -> integer bytes
     (fractions of a byte truncated), or None."""
-    m = re.fullmatch(r'(-?\d+(?:\.\d+)?)\s*([a-zA-Z]*)', lit.strip())
+    m = re.fullmatch(r'(-?(?:\d+\.?\d*|\.\d+))\s*([a-zA-Z]*)', lit.strip())
     if not m or m.group(2).lower() not in UNITS:
         return None
     from fractions import Fraction
